@@ -144,7 +144,7 @@ def make_run(site, window, natoms, h, lmax, mode=None, allow_b=True, b_seconds=F
     return run
 
 
-END_MATRIX = ["G a0", "F a0", "X a0", "! X a0", "X X a0", "U a0 a1", "G F a0", "F G a0", "> a0 X a1"]
+END_MATRIX = ["G a0", "F a0", "X a0", "! X a0", "X X a0", "U a0 a1", "G F a0"]
 CORPUS = [  # (formula tokens, natoms) always run on every site: F5 witnesses and end-of-trace distinctions
     ("G U a0 a1", 2), ("U a0 | F a1 a2", 3), ("U a0 a1", 2), ("G a0", 2), ("F a0", 2), ("X a0", 2), ("! X a0", 2),
     ("X X a0", 2), ("G > a0 X a1", 2), ("G F a0", 2), ("F G a0", 2), ("U G a0 a1", 2), ("U a0 G a1", 2),
@@ -153,6 +153,23 @@ CORPUS = [  # (formula tokens, natoms) always run on every site: F5 witnesses an
     # n-ary and/or (the compiler builds one And/Or node with three operands), prefix operators as last operands
     ("& & a0 a1 X a0", 2), ("| | a0 X a1 F a0", 2), ("& & G a0 a1 F a1", 2), ("| | ! a0 a1 G a1", 2),
 ]
+
+
+def read_group_lookahead():
+    """the printer's GROUP_FOLLOW is regenerated from the lookahead set of scenic_temporal_group in the tree's scenic.gram
+    (`(always a) implies b` is only expressible when that set contains 'implies': finding F25 / its repair)"""
+    import re
+    try:
+        text = open(os.path.join(common.REPO, "src", "scenic", "syntax", "scenic.gram")).read()
+        m = re.search(r"^scenic_temporal_group:.*&\(([^)]*(?:'\)')?[^)]*)\)\s*\{", text, flags=re.M)
+        toks = re.findall(r"'([^']+)'|(NEWLINE)", m.group(1))
+        names = {a or b for a, b in toks}
+    except Exception:
+        return None
+    out = {t for t in names if t in ("until", "or", "and", "implies", ")")}
+    if "NEWLINE" in names:
+        out.add("end")
+    return out
 
 
 def all_tables(natoms, maxlen):
@@ -193,6 +210,15 @@ def main():
                      "length bound; each (formula, site, table) is one real simulation. A case is non-trivial when the formula "
                      "has a temporal operator and the window has >= 2 steps; distinct by hash of (formula, site, style, table)")
     common.ensure_parser()
+    look = read_group_lookahead()
+    if look and {"until", "or", "and", ")", "end"} <= look:
+        F.GROUP_FOLLOW = look
+    c.cov["temporal_group_lookahead"] = sorted(F.GROUP_FOLLOW)
+    if "implies" not in F.GROUP_FOLLOW:
+        # fixed witness of finding F25 (documented connective, unparsable parenthesisation)
+        c.violation("grammar-group-implies", "`require (always a) implies b` cannot be written: the lookahead of scenic_temporal_group lacks 'implies' "
+                    "(formula trees with a temporal group directly before `implies` are skipped by the enumeration)",
+                    dict(text="require (always V(0)) implies V(1)", lookahead=sorted(F.GROUP_FOLLOW), group_before_implies=True))
     if not c.proofs():
         c.finish()
     exe = common.build_ocaml(PID)
@@ -228,7 +254,7 @@ def main():
                 plan.append((f, 2, site, STYLES[(i + j) % 3], t3, None, dict(allmodes=True)))
         d2 = [f for f in F.all_formulas(2, 2) if F.depth(f) == 2]
         if quick:
-            d2 = rng.sample(d2, 160)
+            d2 = rng.sample(d2, 150)
         for j, f in enumerate(d2):
             plan.append((f, 2, SITE_ORDER[j % 5], STYLES[(j // 5) % 3], tables[2], None, dict(allow_b=(j % 2 == 0))))
         nd3 = 40 if quick else 1000
@@ -244,6 +270,9 @@ def main():
             for j, f in enumerate(d2[::20]):
                 plan.append((f, 2, SITE_ORDER[j % 5], STYLES[j % 3], t5, None, {}))
 
+    if os.environ.get("VERIF_C11_DEV") == "implies":     # development knob: temporal groups before `implies`
+        fs = [f for f in F.all_formulas(2, 2) if f[0] == ">" and f[1][0] in "FGXU"][:14]
+        plan = [(f, 2, SITE_ORDER[j % 5], STYLES[j % 3], tables[2], None, {}) for j, f in enumerate(fs)]
     if os.environ.get("VERIF_C11_DEV") == "matrix":      # development knob: only the end-of-scenario matrix
         plan = [e for e in plan if e[6].get("allmodes")]
     # ---------------- processed in rounds of bounded size (memory), each: implementation || model, then compare
